@@ -176,7 +176,46 @@ def run(ctx, rep):
                         return x[1]
         return None
 
+    def only_via(store_bb, pred, val):
+        """every path from the entry to store_bb takes, at some switch whose condition satisfies pred, the edge on which
+        the condition has truth value `val` (cutting those edges makes the store unreachable). A guard that merely
+        exists on SOME path to the store - `cond && other` - does not qualify."""
+        cut = []
+        for sw in range(len(A.blocks)):
+            t = A.term(sw)
+            if t["k"] != "switch":
+                continue
+            x = flow.expr_of(A, t["discr"])
+            neg = False
+            while x[0] == "un" and x[1] == "Not":
+                x = x[2]
+                neg = not neg
+            if not pred(x):
+                continue
+            zero = [y for v, y in t["targets"] if v == "0"]
+            if not zero:
+                continue
+            want_true = (val != neg)
+            cut.append((sw, t["otherwise"] if want_true else zero[0]))
+        return bool(cut) and store_bb not in A.reachable_from(0, cut_edges=cut)
+
+    def is_cmp(ops, names_a, names_b):
+        return lambda x: x[0] == "bin" and x[1] in ops and bool(names_a & expr_names(A, x[2])) and bool(names_b & expr_names(A, x[3]))
+
+    def is_call(rx):
+        return lambda x: x[0] == "call" and bool(re.search(rx, x[1]))
+
     (st, conds) = store_conds("version")
+    rep.check("C18.c", "version/no-downgrade/every-path", only_via(st[0], is_cmp(("Lt",), {"version", "set_version"}, {"version"}), False), where=span_str(st[2][3]),
+              what="EVERY path that stores config.version has seen `version < config.version` evaluate to false")
+    rep.check("C18.c", "version/range/every-path", only_via(st[0], is_call(r"::contains$"), True), where=span_str(st[2][3]),
+              what="every path that stores config.version has seen the allowed-version range contain it")
+    (st2, _) = store_conds("compression")
+    rep.check("C18.c", "compression/level-range/every-path", only_via(st2[0], is_call(r"::contains$"), True), where=span_str(st2[2][3]),
+              what="every path that stores config.compression has seen zstd's level range contain it")
+    (st3, _) = store_conds("min_packsize_tolerate_percent")
+    rep.check("C18.c", "min-percent/every-path", only_via(st3[0], is_cmp(("Gt",), {"percent", "set_min_packsize_tolerate_percent"}, {100}), False), where=span_str(st3[2][3]),
+              what="every path that stores min_packsize_tolerate_percent has seen `percent > 100` evaluate to false")
     rep.check("C18.c", "version/range", has_call(conds, r"RangeInclusive::<Idx>::contains$|RangeInclusive<.*>::contains$|::contains$", True), where=span_str(st[2][3]),
               what="config.version is stored only if the allowed-version range contains it")
     op = has_cmp(conds, ("Lt",), {"version", "set_version"}, {"version"}, False)
